@@ -47,11 +47,11 @@ Theorem C12_binary_2d_covers_once_refuted : exists N R C l r (lhs rhs out0 : lis
   eval_binary_2d N Nat.add (R, C) l r lhs rhs out0 = None.
 Proof.
   exists 4, 2, 1, (2, 1), (1, 1), [1; 2], [10], [0; 0].
-  repeat split; try (simpl; lia); try (vm_compute; reflexivity).
-  - left; reflexivity.
-  - left; reflexivity.
-  - simpl. lia.
-  - vm_compute. discriminate.
+  split; [lia|]. split; [lia|]. split; [lia|].
+  split. { unfold valid_operand; simpl. split; [right; reflexivity|]. split; [left; reflexivity|]. intros [H _]; discriminate. }
+  split; [left; reflexivity|]. split; [left; reflexivity|].
+  split; [reflexivity|]. split; [reflexivity|]. split; [reflexivity|]. split; [reflexivity|].
+  split; [vm_compute; discriminate | vm_compute; reflexivity].
 Qed.
 Print Assumptions C12_binary_2d_covers_once_refuted.
 
@@ -110,6 +110,22 @@ Proof.
   exact (hreduce_eq A f e Ha Hc Hi N HN z inp R C HC Hl out2 d out0 Ho).
 Qed.
 Print Assumptions C12_reduce_horizontal_core.
+
+(* 2-d vertical core (input (outer*K, C) reduced over K, output (outer, C)): the enumerator's packed and
+   scalar accumulate steps amount to "input row i is accumulated element-wise into output row i / K",
+   rows taken in order, every access in bounds — the same left fold as the scalar evaluator, seeded with
+   the identity the output was filled with.  No algebraic law is needed. *)
+Theorem C12_reduce_vertical_core : forall (A : Type) (f : A -> A -> A) (d : A) (N outer K C : nat) (inp out0 : list A),
+  0 < N -> 0 < K -> 0 < C -> 0 < outer -> length inp = outer * K * C -> length out0 = outer * C ->
+  run_steps (vstep N f inp) (red_entries N VERTICAL (outer, C) (outer * K, C)) out0
+  = Some (fold_left (fun out i =>
+            firstn (i / K * C) out ++ map2 f (firstn C (skipn (i / K * C) out)) (firstn C (skipn (i * C) inp))
+            ++ skipn (i / K * C + C) out) (seq 0 (outer * K)) out0).
+Proof.
+  intros A f d N outer K C inp out0 HN HK HC Ho Hi Hl.
+  exact (vreduce_eq A f N HN d inp outer K C HK HC Ho Hi out0 Hl).
+Qed.
+Print Assumptions C12_reduce_vertical_core.
 
 (* ---------- further refutations (faithful model vs spec), each a known-finding class *)
 (* column-major operand: data() is walked in storage order *)
